@@ -108,3 +108,40 @@ func TestVerifC06ReusedSpecVariable(t *testing.T) {
 		st.Sample(map[string]any{"source": "reused-spec-variable", "history": hist})
 	})
 }
+
+// Padded captures of ANY size: clients that do not follow BoringSSL's 256..511 window (compact TLS 1.2 stacks that pad
+// every hello to a fixed size, captures padded far beyond 512). The unpadded size runs from about 100 to 900 bytes, the
+// captured padding body from 1 to 600 bytes; each capture goes through the full round-trip oracle with every flag set.
+func TestVerifC06PaddedCapturesAnySize(t *testing.T) {
+	st := vfNewStats(t, "C06")
+	mk := func(generic, pad int) *ClientHelloSpec {
+		g := &GenericExtension{Id: 0xfff1, Data: make([]byte, generic)}
+		for i := range g.Data {
+			g.Data[i] = byte(i*5 + 3)
+		}
+		return &ClientHelloSpec{TLSVersMin: VersionTLS10, TLSVersMax: VersionTLS12,
+			CipherSuites: []uint16{TLS_ECDHE_ECDSA_WITH_AES_128_GCM_SHA256, TLS_ECDHE_RSA_WITH_AES_128_GCM_SHA256, TLS_RSA_WITH_AES_128_CBC_SHA},
+			Extensions: []TLSExtension{&SNIExtension{}, &ExtendedMasterSecretExtension{}, &RenegotiationInfoExtension{Renegotiation: RenegotiateOnceAsClient},
+				&SupportedCurvesExtension{Curves: []CurveID{X25519, CurveP256}}, &SupportedPointsExtension{SupportedPoints: []byte{0}},
+				&SignatureAlgorithmsExtension{SupportedSignatureAlgorithms: []SignatureScheme{ECDSAWithP256AndSHA256, PSSWithSHA256, PKCS1WithSHA256}},
+				g, &UtlsPaddingExtension{PaddingLen: pad, WillPad: true}}}
+	}
+	n := 0
+	for _, generic := range []int{0, 40, 90, 120, 150, 200, 300, 340, 400, 700} {
+		for _, pad := range []int{1, 37, 71, 200, 600} {
+			n++
+			raw, err := vf06BuildFromSpec(mk(generic, pad), 12, uint64(n))
+			if err != nil {
+				t.Fatalf("harness: %v", err)
+			}
+			h := vfParseClientHello(raw)
+			if e := h.Ext(21); e == nil || len(e.Body) != pad {
+				t.Fatalf("harness: capture without the %d-byte padding", pad)
+			}
+			flags := n % 8
+			f := &Fingerprinter{AllowBluntMimicry: true, AlwaysAddPadding: flags&2 != 0, RealPSKResumption: flags&4 != 0}
+			vf06RoundTrip(st, t, vf06Src{Kind: "custom", Name: fmt.Sprintf("padded-capture(unpadded=%d,padding=%d)", vfUnpaddedLen(h), pad)}, raw, f, 'q', uint64(n)+500)
+			st.Class("padded-capture-any-size")
+		}
+	}
+}
